@@ -7,7 +7,7 @@ import struct
 from sa.astx import call_name, src, walk_local
 from sa.selftest import Mutant, Silent
 from sa.source import AnalysisError, class_assigns
-from sa.props._lib_i import COMPAT, BlockRaised, NotPure, Raised, eval_block, interp, module_env, peval
+from sa.props._lib_i import sect, COMPAT, BlockRaised, NotPure, Raised, eval_block, interp, module_env, peval
 
 PROPERTY = "C44"
 BANANA = "spread/banana.py"
@@ -62,251 +62,256 @@ def check(ctx):
     funcs["struct.unpack"] = struct.unpack
 
     # ---- radix-128 helpers ---------------------------------------------------------------------------------------
-    f_enc = ctx.func(BANANA, "int2b128")
-    f_dec = ctx.func(BANANA, "b1282int")
-    i2b = interp(f_enc, funcs, env0)
-    b2i = interp(f_dec, funcs, env0)
+    with sect(ctx, 'radix-128 helpers'):
+        f_enc = ctx.func(BANANA, "int2b128")
+        f_dec = ctx.func(BANANA, "b1282int")
+        i2b = interp(f_enc, funcs, env0)
+        b2i = interp(f_dec, funcs, env0)
 
-    def enc_int(n):
-        out = []
-        i2b(n, out.append)
-        return b"".join(out)
-    mags = [0, 1, 127, 128, 129, 16383, 16384, 2**31 - 1, 2**31, 2**31 + 1, 2**32, 2**63, 2**(7 * 64) - 1, 2**(7 * 64)]
-    bad = None
-    for n in mags:
-        try:
-            got = enc_int(n)
-        except (Raised, BlockRaised) as ex:
-            raise AnalysisError(f"int2b128({n}) not evaluable: {ex}")
-        if got != ref_b128(n):
-            bad = (n, got)
-            break
-    ctx.check(bad is None, "radix/int2b128", base + "int2b128", bad and f"int2b128({bad[0]}) writes {bad[1]!r}; little-endian base-128 digits are {ref_b128(bad[0])!r}",
-              detail=f"{len(mags)} boundary magnitudes")
-    bad = None
-    for n in mags:
-        try:
-            got = b2i(ref_b128(n))
-        except (Raised, BlockRaised) as ex:
-            raise AnalysisError(f"b1282int not evaluable: {ex}")
-        if got != n:
-            bad = (n, got)
-            break
-    ctx.check(bad is None, "radix/b1282int", base + "b1282int", bad and f"b1282int({ref_b128(bad[0])!r}) = {bad[1]}, the digits denote {bad[0]}")
-    funcs["int2b128"] = i2b
-    funcs["b1282int"] = b2i
+        def enc_int(n):
+            out = []
+            i2b(n, out.append)
+            return b"".join(out)
+        mags = [0, 1, 127, 128, 129, 16383, 16384, 2**31 - 1, 2**31, 2**31 + 1, 2**32, 2**63, 2**(7 * 64) - 1, 2**(7 * 64)]
+        bad = None
+        for n in mags:
+            try:
+                got = enc_int(n)
+            except (Raised, BlockRaised) as ex:
+                raise AnalysisError(f"int2b128({n}) not evaluable: {ex}")
+            if got != ref_b128(n):
+                bad = (n, got)
+                break
+        ctx.check(bad is None, "radix/int2b128", base + "int2b128", bad and f"int2b128({bad[0]}) writes {bad[1]!r}; little-endian base-128 digits are {ref_b128(bad[0])!r}",
+                  detail=f"{len(mags)} boundary magnitudes")
+        bad = None
+        for n in mags:
+            try:
+                got = b2i(ref_b128(n))
+            except (Raised, BlockRaised) as ex:
+                raise AnalysisError(f"b1282int not evaluable: {ex}")
+            if got != n:
+                bad = (n, got)
+                break
+        ctx.check(bad is None, "radix/b1282int", base + "b1282int", bad and f"b1282int({ref_b128(bad[0])!r}) = {bad[1]}, the digits denote {bad[0]}")
+        funcs["int2b128"] = i2b
+        funcs["b1282int"] = b2i
 
     # ---- limits installed by setPrefixLimit / connectionMade ------------------------------------------------------------
-    f_lim = ctx.func(BANANA, "Banana.setPrefixLimit")
-    default_limit = None
-    for st in mod.tree.body:
-        if isinstance(st, ast.Expr) and isinstance(st.value, ast.Call) and call_name(st.value) == "setPrefixLimit" and st.value.args:
-            default_limit = peval(st.value.args[0], env0)
-    ctx.need(isinstance(default_limit, int), "module-level setPrefixLimit(<int>)")
+    with sect(ctx, 'limits installed by setPrefixLimit / connectionMade'):
+        f_lim = ctx.func(BANANA, "Banana.setPrefixLimit")
+        default_limit = None
+        for st in mod.tree.body:
+            if isinstance(st, ast.Expr) and isinstance(st.value, ast.Call) and call_name(st.value) == "setPrefixLimit" and st.value.args:
+                default_limit = peval(st.value.args[0], env0)
+        ctx.need(isinstance(default_limit, int), "module-level setPrefixLimit(<int>)")
 
-    def limits(L):
-        e = dict(env0)
-        e[f_lim.args.args[1].arg] = L
-        eval_block(f_lim.body, e, funcs=funcs)
-        return e
-    q = base + "Banana.setPrefixLimit"
-    for L in (default_limit, 5):
-        e = limits(L)
-        want = {"self.prefixLimit": L, "self._largestLongInt": 2 ** (7 * L) - 1, "self._smallestLongInt": -(2 ** (7 * L)) + 1,
-                "self._largestInt": 2**31 - 1, "self._smallestInt": -(2**31)}
-        for k, v in want.items():
-            ctx.check(e.get(k) == v, "limits/encoder-matches-prefix-limit", f"{q} | {k} for limit {'default' if L == default_limit else L}",
-                      f"with a prefix limit of {L} digits {k} is {e.get(k)!r}; the largest magnitude {L} base-128 digits can carry is 2**{7 * L}-1, "
-                      f"so the bound must be {v}: otherwise the encoder sends integers the decoder refuses (or refuses ones it accepts)")
-    f_cm = ctx.func(BANANA, "Banana.connectionMade")
-    g = ctx.cfg(f_cm)
-    inst = g.find(lambda x: isinstance(x, ast.Call) and call_name(x) == "self.setPrefixLimit" and len(x.args) == 1 and src(x.args[0]) == "_PREFIX_LIMIT")
-    wit = g.must_pass([g.entry], inst, exc=False)
-    ctx.check(bool(inst) and wit is None, "limits/installed-on-connect", base + "Banana.connectionMade",
-              "a connection can start without the prefix / integer limits being installed", witness=g.describe(wit))
+        def limits(L):
+            e = dict(env0)
+            e[f_lim.args.args[1].arg] = L
+            eval_block(f_lim.body, e, funcs=funcs)
+            return e
+        q = base + "Banana.setPrefixLimit"
+        for L in (default_limit, 5):
+            e = limits(L)
+            want = {"self.prefixLimit": L, "self._largestLongInt": 2 ** (7 * L) - 1, "self._smallestLongInt": -(2 ** (7 * L)) + 1,
+                    "self._largestInt": 2**31 - 1, "self._smallestInt": -(2**31)}
+            for k, v in want.items():
+                ctx.check(e.get(k) == v, "limits/encoder-matches-prefix-limit", f"{q} | {k} for limit {'default' if L == default_limit else L}",
+                          f"with a prefix limit of {L} digits {k} is {e.get(k)!r}; the largest magnitude {L} base-128 digits can carry is 2**{7 * L}-1, "
+                          f"so the bound must be {v}: otherwise the encoder sends integers the decoder refuses (or refuses ones it accepts)")
+        f_cm = ctx.func(BANANA, "Banana.connectionMade")
+        g = ctx.cfg(f_cm)
+        inst = g.find(lambda x: isinstance(x, ast.Call) and call_name(x) == "self.setPrefixLimit" and len(x.args) == 1 and src(x.args[0]) == "_PREFIX_LIMIT")
+        wit = g.must_pass([g.entry], inst, exc=False)
+        ctx.check(bool(inst) and wit is None, "limits/installed-on-connect", base + "Banana.connectionMade",
+                  "a connection can start without the prefix / integer limits being installed", witness=g.describe(wit))
 
     # ---- vocabulary tables inverse ------------------------------------------------------------------------------------------
-    cls = ctx.cls(BANANA, "Banana")
-    ce = dict(env0)
-    for st in cls.body:
-        if isinstance(st, ast.Assign) and len(st.targets) == 1 and isinstance(st.targets[0], ast.Name) and st.targets[0].id in ("outgoingVocabulary", "incomingVocabulary"):
-            ce[st.targets[0].id] = peval(st.value, ce)
-        elif isinstance(st, ast.For) and "incomingVocabulary" in src(st):
-            eval_block([st], ce)
-    out_v, in_v = ce.get("outgoingVocabulary"), ce.get("incomingVocabulary")
-    ctx.need(isinstance(out_v, dict) and out_v and isinstance(in_v, dict), "Banana.outgoingVocabulary / incomingVocabulary")
-    ctx.check(in_v == {v: k for k, v in out_v.items()} and len(set(out_v.values())) == len(out_v), "vocab/tables-inverse", base + "Banana.incomingVocabulary",
-              "incomingVocabulary is not the inverse of outgoingVocabulary (a word sent as VOCAB is received as a different value)")
+    with sect(ctx, 'vocabulary tables inverse'):
+        cls = ctx.cls(BANANA, "Banana")
+        ce = dict(env0)
+        for st in cls.body:
+            if isinstance(st, ast.Assign) and len(st.targets) == 1 and isinstance(st.targets[0], ast.Name) and st.targets[0].id in ("outgoingVocabulary", "incomingVocabulary"):
+                ce[st.targets[0].id] = peval(st.value, ce)
+            elif isinstance(st, ast.For) and "incomingVocabulary" in src(st):
+                eval_block([st], ce)
+        out_v, in_v = ce.get("outgoingVocabulary"), ce.get("incomingVocabulary")
+        ctx.need(isinstance(out_v, dict) and out_v and isinstance(in_v, dict), "Banana.outgoingVocabulary / incomingVocabulary")
+        ctx.check(in_v == {v: k for k, v in out_v.items()} and len(set(out_v.values())) == len(out_v), "vocab/tables-inverse", base + "Banana.incomingVocabulary",
+                  "incomingVocabulary is not the inverse of outgoingVocabulary (a word sent as VOCAB is received as a different value)")
 
     # ---- encoder: one _encode call per kind ---------------------------------------------------------------------------------
-    f_e = ctx.func(BANANA, "Banana._encode")
-    q = base + "Banana._encode"
-    lim = limits(default_limit)
-    L = default_limit
-    big, small = lim["self._largestLongInt"], lim["self._smallestLongInt"]
-    if not (isinstance(big, int) and isinstance(small, int)):
-        big, small = 2 ** (7 * L) - 1, -(2 ** (7 * L)) + 1
+    with sect(ctx, 'encoder: one _encode call per kind'):
+        f_e = ctx.func(BANANA, "Banana._encode")
+        q = base + "Banana._encode"
+        lim = limits(default_limit)
+        L = default_limit
+        big, small = lim["self._largestLongInt"], lim["self._smallestLongInt"]
+        if not (isinstance(big, int) and isinstance(small, int)):
+            big, small = 2 ** (7 * L) - 1, -(2 ** (7 * L)) + 1
 
-    def encode(obj, dialect=b"none"):
-        out = []
-        e = dict(lim)
-        e.update({"self.currentDialect": dialect, "self.outgoingSymbols": dict(out_v)})
-        enc = interp(f_e, funcs, e)
-        e["self._encode"] = lambda o, w: enc(_Self(), o, w)
-        try:
-            enc(_Self(), obj, out.append)
-        except Raised as ex:
-            return None, _exc_name(str(ex.exc))
-        except BlockRaised as ex:
-            return None, type(ex.exc).__name__
-        return b"".join(out), None
+        def encode(obj, dialect=b"none"):
+            out = []
+            e = dict(lim)
+            e.update({"self.currentDialect": dialect, "self.outgoingSymbols": dict(out_v)})
+            enc = interp(f_e, funcs, e)
+            e["self._encode"] = lambda o, w: enc(_Self(), o, w)
+            try:
+                enc(_Self(), obj, out.append)
+            except Raised as ex:
+                return None, _exc_name(str(ex.exc))
+            except BlockRaised as ex:
+                return None, type(ex.exc).__name__
+            return b"".join(out), None
 
-    POS, NEGT = {tags["INT"], tags["LONGINT"]}, {tags["NEG"], tags["LONGNEG"]}
+        POS, NEGT = {tags["INT"], tags["LONGINT"]}, {tags["NEG"], tags["LONGNEG"]}
 
-    def int_ok(n, wire):
-        if wire is None or len(wire) < 2:
-            return False
-        pre, tb = wire[:-1], wire[-1:]
-        return pre == ref_b128(abs(n)) and tb in (NEGT if n < 0 else POS) and len(pre) <= L
+        def int_ok(n, wire):
+            if wire is None or len(wire) < 2:
+                return False
+            pre, tb = wire[:-1], wire[-1:]
+            return pre == ref_b128(abs(n)) and tb in (NEGT if n < 0 else POS) and len(pre) <= L
 
-    int_cases = [0, 1, -1, 127, 128, 2**31 - 1, 2**31, -(2**31), -(2**31) - 1, 2**63, -(2**63), 2 ** (7 * L) - 1, -(2 ** (7 * L)) + 1]
-    bad = None
-    for n in int_cases:
-        wire, err = encode(n)
-        if err or not int_ok(n, wire):
-            bad = (n, wire if not err else err)
-            break
-    ctx.check(bad is None, "encode/int-forms", q + " | integers in range",
-              bad and f"_encode({bad[0]}) produces {bad[1]!r}; required: base-128 digits of the magnitude ({ref_b128(abs(bad[0]))[:8]!r}...) then INT/LONGINT for >= 0, NEG/LONGNEG for < 0",
-              detail=f"{len(int_cases)} boundary integers")
-    for n, side in ((2 ** (7 * L), "above"), (-(2 ** (7 * L)), "below")):
-        wire, err = encode(n)
-        ctx.check(err == "BananaError", "encode/int-limit-refused", f"{q} | first integer {side} the limit",
-                  f"_encode({'2**%d' % (7 * L) if n > 0 else '-2**%d' % (7 * L)}) " + (f"raises {err}" if err else f"emits a {len(wire) - 1}-digit prefix") +
-                  f"; the decoder refuses prefixes longer than {L} digits, so the encoder must raise BananaError")
-    for obj, kind, want in ((1.5, "float", tags["FLOAT"] + struct.pack("!d", 1.5)), (-0.0, "float", tags["FLOAT"] + struct.pack("!d", -0.0)),
-                            (float("inf"), "float", tags["FLOAT"] + struct.pack("!d", float("inf"))),
-                            (b"", "bytes", b"\0" + tags["STRING"]), (b"abc", "bytes", b"\x03" + tags["STRING"] + b"abc"),
-                            (b"x" * 200, "bytes", ref_b128(200) + tags["STRING"] + b"x" * 200), (b"None", "bytes", b"\x04" + tags["STRING"] + b"None"),
-                            ([], "list", b"\0" + tags["LIST"]), ((), "list", b"\0" + tags["LIST"]),
-                            ([1, [b"a"], -2], "list", b"\x03" + tags["LIST"] + b"\x01" + tags["INT"] + b"\x01" + tags["LIST"] + b"\x01" + tags["STRING"] + b"a" + b"\x02" + tags["NEG"])):
-        wire, err = encode(obj)
-        ctx.check(err is None and wire == want, "encode/forms", f"{q} | {kind} {obj!r}"[:120],
-                  f"_encode({obj!r}) produces {(wire if err is None else err)!r}; the wire format is {want!r}")
-    wire, err = encode(b"x" * (size_limit + 1))
-    ctx.check(err == "BananaError", "encode/size-limit-refused", q + " | byte string longer than SIZE_LIMIT", "an oversized byte string is encoded instead of refused (the decoder will drop the connection)")
-    wire, err = encode(b"x" * size_limit)
-    ctx.check(err is None, "encode/size-limit-refused", q + " | byte string of exactly SIZE_LIMIT", f"a byte string of exactly SIZE_LIMIT bytes is refused ({err}); the decoder accepts it")
-    wire, err = encode([0] * 0 + [None] * 0 + list(range(0)) + [b""] * (size_limit + 1))
-    ctx.check(err == "BananaError", "encode/size-limit-refused", q + " | list longer than SIZE_LIMIT", "an oversized list is encoded instead of refused")
-    wire, err = encode(None)
-    ctx.check(err == "BananaError", "encode/unsupported-refused", q + " | unsupported type", f"an unsupported value is not refused with BananaError ({(wire if err is None else err)!r})")
-    wire, err = encode(b"None", b"pb")
-    ctx.check(err is None and wire == ref_b128(out_v[b"None"]) + tags["VOCAB"], "encode/vocab", q + " | vocabulary word, pb dialect",
-              f"in the pb dialect b'None' is sent as {(wire if err is None else err)!r}; the vocabulary form is {ref_b128(out_v[b'None']) + tags['VOCAB']!r}")
-    wire, err = encode(b"None", b"none")
-    ctx.check(err is None and wire == b"\x04" + tags["STRING"] + b"None", "encode/vocab", q + " | vocabulary word, none dialect",
-              f"outside the pb dialect b'None' is sent as {(wire if err is None else err)!r}: the peer's decoder only accepts VOCAB in the pb dialect")
-    # every tag written has a decoder branch (reported by name)
-    written = {a.id for c in ast.walk(f_e) if isinstance(c, ast.Call) and call_name(c) == "write" for a in c.args if isinstance(a, ast.Name) and a.id in tags}
-    f_d = ctx.func(BANANA, "Banana.dataReceived")
-    handled = {c.id for x in ast.walk(f_d) if isinstance(x, ast.Compare) for c in [x.left] + x.comparators if isinstance(c, ast.Name) and c.id in tags}
-    for t in sorted(written):
-        ctx.check(t in handled, "tags/encoder-subset-of-decoder", f"{base}Banana.dataReceived | branch for {t}", f"_encode writes the type byte {t} but dataReceived has no branch for it")
-    ctx.floor("tags/encoder-subset-of-decoder", len(written), 6)
+        int_cases = [0, 1, -1, 127, 128, 2**31 - 1, 2**31, -(2**31), -(2**31) - 1, 2**63, -(2**63), 2 ** (7 * L) - 1, -(2 ** (7 * L)) + 1]
+        bad = None
+        for n in int_cases:
+            wire, err = encode(n)
+            if err or not int_ok(n, wire):
+                bad = (n, wire if not err else err)
+                break
+        ctx.check(bad is None, "encode/int-forms", q + " | integers in range",
+                  bad and f"_encode({bad[0]}) produces {bad[1]!r}; required: base-128 digits of the magnitude ({ref_b128(abs(bad[0]))[:8]!r}...) then INT/LONGINT for >= 0, NEG/LONGNEG for < 0",
+                  detail=f"{len(int_cases)} boundary integers")
+        for n, side in ((2 ** (7 * L), "above"), (-(2 ** (7 * L)), "below")):
+            wire, err = encode(n)
+            ctx.check(err == "BananaError", "encode/int-limit-refused", f"{q} | first integer {side} the limit",
+                      f"_encode({'2**%d' % (7 * L) if n > 0 else '-2**%d' % (7 * L)}) " + (f"raises {err}" if err else f"emits a {len(wire) - 1}-digit prefix") +
+                      f"; the decoder refuses prefixes longer than {L} digits, so the encoder must raise BananaError")
+        for obj, kind, want in ((1.5, "float", tags["FLOAT"] + struct.pack("!d", 1.5)), (-0.0, "float", tags["FLOAT"] + struct.pack("!d", -0.0)),
+                                (float("inf"), "float", tags["FLOAT"] + struct.pack("!d", float("inf"))),
+                                (b"", "bytes", b"\0" + tags["STRING"]), (b"abc", "bytes", b"\x03" + tags["STRING"] + b"abc"),
+                                (b"x" * 200, "bytes", ref_b128(200) + tags["STRING"] + b"x" * 200), (b"None", "bytes", b"\x04" + tags["STRING"] + b"None"),
+                                ([], "list", b"\0" + tags["LIST"]), ((), "list", b"\0" + tags["LIST"]),
+                                ([1, [b"a"], -2], "list", b"\x03" + tags["LIST"] + b"\x01" + tags["INT"] + b"\x01" + tags["LIST"] + b"\x01" + tags["STRING"] + b"a" + b"\x02" + tags["NEG"])):
+            wire, err = encode(obj)
+            ctx.check(err is None and wire == want, "encode/forms", f"{q} | {kind} {obj!r}"[:120],
+                      f"_encode({obj!r}) produces {(wire if err is None else err)!r}; the wire format is {want!r}")
+        wire, err = encode(b"x" * (size_limit + 1))
+        ctx.check(err == "BananaError", "encode/size-limit-refused", q + " | byte string longer than SIZE_LIMIT", "an oversized byte string is encoded instead of refused (the decoder will drop the connection)")
+        wire, err = encode(b"x" * size_limit)
+        ctx.check(err is None, "encode/size-limit-refused", q + " | byte string of exactly SIZE_LIMIT", f"a byte string of exactly SIZE_LIMIT bytes is refused ({err}); the decoder accepts it")
+        wire, err = encode([0] * 0 + [None] * 0 + list(range(0)) + [b""] * (size_limit + 1))
+        ctx.check(err == "BananaError", "encode/size-limit-refused", q + " | list longer than SIZE_LIMIT", "an oversized list is encoded instead of refused")
+        wire, err = encode(None)
+        ctx.check(err == "BananaError", "encode/unsupported-refused", q + " | unsupported type", f"an unsupported value is not refused with BananaError ({(wire if err is None else err)!r})")
+        wire, err = encode(b"None", b"pb")
+        ctx.check(err is None and wire == ref_b128(out_v[b"None"]) + tags["VOCAB"], "encode/vocab", q + " | vocabulary word, pb dialect",
+                  f"in the pb dialect b'None' is sent as {(wire if err is None else err)!r}; the vocabulary form is {ref_b128(out_v[b'None']) + tags['VOCAB']!r}")
+        wire, err = encode(b"None", b"none")
+        ctx.check(err is None and wire == b"\x04" + tags["STRING"] + b"None", "encode/vocab", q + " | vocabulary word, none dialect",
+                  f"outside the pb dialect b'None' is sent as {(wire if err is None else err)!r}: the peer's decoder only accepts VOCAB in the pb dialect")
+        # every tag written has a decoder branch (reported by name)
+        written = {a.id for c in ast.walk(f_e) if isinstance(c, ast.Call) and call_name(c) == "write" for a in c.args if isinstance(a, ast.Name) and a.id in tags}
+        f_d = ctx.func(BANANA, "Banana.dataReceived")
+        handled = {c.id for x in ast.walk(f_d) if isinstance(x, ast.Compare) for c in [x.left] + x.comparators if isinstance(c, ast.Name) and c.id in tags}
+        for t in sorted(written):
+            ctx.check(t in handled, "tags/encoder-subset-of-decoder", f"{base}Banana.dataReceived | branch for {t}", f"_encode writes the type byte {t} but dataReceived has no branch for it")
+        ctx.floor("tags/encoder-subset-of-decoder", len(written), 6)
 
     # ---- decoder: one iteration of the scanning loop ------------------------------------------------------------------------------
-    q = base + "Banana.dataReceived"
-    loops = [st for st in f_d.body if isinstance(st, ast.While)]
-    ctx.need(len(loops) == 1, "the scanning loop of dataReceived")
-    loop = loops[0]
-    pre = f_d.body[:f_d.body.index(loop)]
-    post = f_d.body[f_d.body.index(loop) + 1:]
-    chunk_p = f_d.args.args[1].arg
-    f_gi = ctx.func(BANANA, "Banana.gotItem")
+    with sect(ctx, 'decoder: one iteration of the scanning loop'):
+        q = base + "Banana.dataReceived"
+        loops = [st for st in f_d.body if isinstance(st, ast.While)]
+        ctx.need(len(loops) == 1, "the scanning loop of dataReceived")
+        loop = loops[0]
+        pre = f_d.body[:f_d.body.index(loop)]
+        post = f_d.body[f_d.body.index(loop) + 1:]
+        chunk_p = f_d.args.args[1].arg
+        f_gi = ctx.func(BANANA, "Banana.gotItem")
 
-    def step(buffer, stack=None, dialect=b"none", limit=L):
-        stack = [(n, list(items)) for n, items in (stack or [])]
-        delivered = []
-        ge = {"self.listStack": stack, "self.callExpressionReceived": delivered.append}
-        gi = interp(f_gi, funcs, ge)
-        e = dict(env0)
-        e.update({"self": _Self(), "self.buffer": b"", "self.listStack": stack, "self.gotItem": lambda item: gi(_Self(), item), "self.prefixLimit": limit,
-                  "self.incomingVocabulary": dict(in_v), "self.currentDialect": dialect, chunk_p: buffer})
-        try:
-            eval_block(pre, e, funcs=funcs)
-            if e.get("buffer") != buffer:
-                raise AnalysisError(f"{q}: statements before the loop do not bind the working buffer")
-            r = eval_block(loop.body, e, funcs=funcs)
-        except BlockRaised as ex:
-            return {"raised": type(ex.exc).__name__}
-        return {"buffer": e["buffer"], "stack": stack, "delivered": delivered, "returned": r.returned, "raised": _exc_name(r.raised), "saved": e["self.buffer"]}
+        def step(buffer, stack=None, dialect=b"none", limit=L):
+            stack = [(n, list(items)) for n, items in (stack or [])]
+            delivered = []
+            ge = {"self.listStack": stack, "self.callExpressionReceived": delivered.append}
+            gi = interp(f_gi, funcs, ge)
+            e = dict(env0)
+            e.update({"self": _Self(), "self.buffer": b"", "self.listStack": stack, "self.gotItem": lambda item: gi(_Self(), item), "self.prefixLimit": limit,
+                      "self.incomingVocabulary": dict(in_v), "self.currentDialect": dialect, chunk_p: buffer})
+            try:
+                eval_block(pre, e, funcs=funcs)
+                if e.get("buffer") != buffer:
+                    raise AnalysisError(f"{q}: statements before the loop do not bind the working buffer")
+                r = eval_block(loop.body, e, funcs=funcs)
+            except BlockRaised as ex:
+                return {"raised": type(ex.exc).__name__}
+            return {"buffer": e["buffer"], "stack": stack, "delivered": delivered, "returned": r.returned, "raised": _exc_name(r.raised), "saved": e["self.buffer"]}
 
-    def want_step(case, buffer, expect, why="", **kw):
-        got = step(buffer, **kw)
-        ok = all(got.get(k) == v for k, v in expect.items())
-        ctx.check(ok, "decode/step", f"{q} | {case}",
-                  f"decoding step on {buffer[:24]!r}{'...' if len(buffer) > 24 else ''} gives { {k: got.get(k) for k in expect} !r}; required {expect!r}. {why}")
+        def want_step(case, buffer, expect, why="", **kw):
+            got = step(buffer, **kw)
+            ok = all(got.get(k) == v for k, v in expect.items())
+            ctx.check(ok, "decode/step", f"{q} | {case}",
+                      f"decoding step on {buffer[:24]!r}{'...' if len(buffer) > 24 else ''} gives { {k: got.get(k) for k in expect} !r}; required {expect!r}. {why}")
 
-    done = {"returned": False, "raised": None}
-    for n in (0, 5, 200, 2**31 - 1):
-        want_step("INT", ref_b128(n) + tags["INT"] + b"Z", {**done, "delivered": [n], "buffer": b"Z"})
-    for n in (2**31, 2 ** (7 * L) - 1):
-        want_step("LONGINT", ref_b128(n) + tags["LONGINT"] + b"Z", {**done, "delivered": [n], "buffer": b"Z"})
-    for n in (1, 2**31):
-        want_step("NEG", ref_b128(n) + tags["NEG"] + b"Z", {**done, "delivered": [-n], "buffer": b"Z"}, why="the encoder writes the magnitude; the decoder must negate")
-    for n in (2**31 + 1, 2 ** (7 * L) - 1):
-        want_step("LONGNEG", ref_b128(n) + tags["LONGNEG"] + b"Z", {**done, "delivered": [-n], "buffer": b"Z"}, why="the encoder writes the magnitude; the decoder must negate")
-    want_step("STRING complete", b"\x03" + tags["STRING"] + b"abcZ", {**done, "delivered": [b"abc"], "buffer": b"Z"})
-    want_step("STRING complete at chunk end", b"\x03" + tags["STRING"] + b"abc", {**done, "delivered": [b"abc"], "buffer": b""},
-              why="an item that ends exactly at the end of the received data must be delivered now, not when more data arrives")
-    want_step("STRING empty", b"\0" + tags["STRING"] + b"Z", {**done, "delivered": [b""], "buffer": b"Z"})
-    short = b"\x03" + tags["STRING"] + b"ab"
-    want_step("STRING incomplete waits", short, {"returned": True, "raised": None, "delivered": [], "saved": short},
-              why="an incomplete item must be kept (whole, prefix included) for the next chunk")
-    want_step("STRING longer than SIZE_LIMIT refused", ref_b128(size_limit + 1) + tags["STRING"] + b"ab", {"raised": "BananaError", "delivered": []},
-              why="the declared length must be refused as soon as it is known, not after buffering that much data")
-    want_step("STRING of exactly SIZE_LIMIT accepted", ref_b128(size_limit) + tags["STRING"] + b"ab", {"returned": True, "raised": None})
-    want_step("LIST header", b"\x02" + tags["LIST"] + b"Z", {**done, "delivered": [], "stack": [(2, [])], "buffer": b"Z"})
-    want_step("LIST empty", b"\0" + tags["LIST"] + b"Z", {**done, "delivered": [[]], "stack": [], "buffer": b"Z"})
-    want_step("LIST longer than SIZE_LIMIT refused", ref_b128(size_limit + 1) + tags["LIST"], {"raised": "BananaError"})
-    want_step("LIST closes on last element", b"\x07" + tags["INT"], {**done, "delivered": [[b"a", 7]], "stack": []}, stack=[(2, [b"a"])])
-    want_step("LIST nested close cascades", b"\x07" + tags["INT"], {**done, "delivered": [[[7]]], "stack": []}, stack=[(1, []), (1, [])])
-    want_step("LIST element appended", b"\x07" + tags["INT"], {**done, "delivered": [], "stack": [(3, [b"a", 7])]}, stack=[(3, [b"a"])])
-    for val in (1.5, -0.0, float("inf")):
-        raw = struct.pack("!d", val)
-        got = step(tags["FLOAT"] + raw + b"Z")
-        ok = got.get("raised") is None and not got.get("returned") and got.get("buffer") == b"Z" and len(got.get("delivered", [])) == 1 \
-            and isinstance(got["delivered"][0], float) and struct.pack("!d", got["delivered"][0]) == raw
-        ctx.check(ok, "decode/step", f"{q} | FLOAT", f"decoding the network-order double {raw!r} gives {got!r}; the value must come back bit for bit")
-    nan = struct.pack("!d", float("nan"))
-    got = step(tags["FLOAT"] + nan)
-    ctx.check(got.get("raised") is None and len(got.get("delivered", [])) == 1 and struct.pack("!d", got["delivered"][0]) == nan and got.get("buffer") == b"", "decode/step", f"{q} | FLOAT NaN at chunk end",
-              f"a NaN double ending the chunk gives {got!r}")
-    shortf = tags["FLOAT"] + b"\x3f\xf8\0\0"
-    want_step("FLOAT incomplete waits", shortf, {"returned": True, "raised": None, "delivered": [], "saved": shortf})
-    want_step("VOCAB in pb dialect", ref_b128(out_v[b"None"]) + tags["VOCAB"] + b"Z", {**done, "delivered": [b"None"], "buffer": b"Z"}, dialect=b"pb")
-    got = step(ref_b128(out_v[b"None"]) + tags["VOCAB"] + b"Z", dialect=b"none")
-    ctx.check(got.get("raised") is not None and not got.get("delivered"), "decode/step", f"{q} | VOCAB outside pb dialect refused", f"a VOCAB item outside the pb dialect gives {got!r}")
-    got = step(b"\x01\x88Z")
-    ctx.check(got.get("raised") is not None and not got.get("delivered"), "decode/step", f"{q} | unknown type byte refused", f"an unknown type byte gives {got!r} (it must not be skipped silently)")
-    # prefix limit, both paths, with a small limit so that the boundary is cheap to state
-    for lim_ in (3, L):
-        ones = b"\x01" * lim_
-        want_step("prefix of limit digits, type byte not yet seen: waits", ones, {"returned": True, "raised": None, "saved": ones}, limit=lim_,
-                  why="the encoder legitimately produces prefixes of exactly prefixLimit digits; a chunk boundary before the type byte must not be fatal")
-        want_step("prefix longer than limit, type byte not yet seen: refused", ones + b"\x01", {"raised": "BananaError"}, limit=lim_,
-                  why="an endless prefix must be refused without waiting for a type byte")
-        want_step("prefix of limit digits with type byte: accepted", ones + tags["LONGINT"], {**done, "buffer": b""}, limit=lim_)
-        want_step("prefix longer than limit with type byte: refused", ones + b"\x01" + tags["LONGINT"], {"raised": "BananaError", "delivered": []}, limit=lim_,
-                  why="the prefix limit must also hold when prefix and type byte arrive together")
-    # leftover handling around the loop
-    e = {**env0, "self.buffer": b"ab", chunk_p: b"cd", "self.listStack": [], "self.gotItem": lambda i: None}
-    eval_block(pre, e, funcs=funcs)
-    ctx.check(e.get("buffer") == b"abcd", "decode/leftover-prepended", q + " | saved bytes + new chunk", f"the working buffer is {e.get('buffer')!r} for saved b'ab' and chunk b'cd'")
-    e = {**env0, "self.buffer": b"ab", "buffer": b""}
-    eval_block(post, e, funcs=funcs)
-    ctx.check(e.get("self.buffer") == b"", "decode/leftover-prepended", q + " | saved bytes cleared when all consumed", "fully consumed data stays in self.buffer and is decoded again with the next chunk")
+        done = {"returned": False, "raised": None}
+        for n in (0, 5, 200, 2**31 - 1):
+            want_step("INT", ref_b128(n) + tags["INT"] + b"Z", {**done, "delivered": [n], "buffer": b"Z"})
+        for n in (2**31, 2 ** (7 * L) - 1):
+            want_step("LONGINT", ref_b128(n) + tags["LONGINT"] + b"Z", {**done, "delivered": [n], "buffer": b"Z"})
+        for n in (1, 2**31):
+            want_step("NEG", ref_b128(n) + tags["NEG"] + b"Z", {**done, "delivered": [-n], "buffer": b"Z"}, why="the encoder writes the magnitude; the decoder must negate")
+        for n in (2**31 + 1, 2 ** (7 * L) - 1):
+            want_step("LONGNEG", ref_b128(n) + tags["LONGNEG"] + b"Z", {**done, "delivered": [-n], "buffer": b"Z"}, why="the encoder writes the magnitude; the decoder must negate")
+        want_step("STRING complete", b"\x03" + tags["STRING"] + b"abcZ", {**done, "delivered": [b"abc"], "buffer": b"Z"})
+        want_step("STRING complete at chunk end", b"\x03" + tags["STRING"] + b"abc", {**done, "delivered": [b"abc"], "buffer": b""},
+                  why="an item that ends exactly at the end of the received data must be delivered now, not when more data arrives")
+        want_step("STRING empty", b"\0" + tags["STRING"] + b"Z", {**done, "delivered": [b""], "buffer": b"Z"})
+        short = b"\x03" + tags["STRING"] + b"ab"
+        want_step("STRING incomplete waits", short, {"returned": True, "raised": None, "delivered": [], "saved": short},
+                  why="an incomplete item must be kept (whole, prefix included) for the next chunk")
+        want_step("STRING longer than SIZE_LIMIT refused", ref_b128(size_limit + 1) + tags["STRING"] + b"ab", {"raised": "BananaError", "delivered": []},
+                  why="the declared length must be refused as soon as it is known, not after buffering that much data")
+        want_step("STRING of exactly SIZE_LIMIT accepted", ref_b128(size_limit) + tags["STRING"] + b"ab", {"returned": True, "raised": None})
+        want_step("LIST header", b"\x02" + tags["LIST"] + b"Z", {**done, "delivered": [], "stack": [(2, [])], "buffer": b"Z"})
+        want_step("LIST empty", b"\0" + tags["LIST"] + b"Z", {**done, "delivered": [[]], "stack": [], "buffer": b"Z"})
+        want_step("LIST longer than SIZE_LIMIT refused", ref_b128(size_limit + 1) + tags["LIST"], {"raised": "BananaError"})
+        want_step("LIST closes on last element", b"\x07" + tags["INT"], {**done, "delivered": [[b"a", 7]], "stack": []}, stack=[(2, [b"a"])])
+        want_step("LIST nested close cascades", b"\x07" + tags["INT"], {**done, "delivered": [[[7]]], "stack": []}, stack=[(1, []), (1, [])])
+        want_step("LIST element appended", b"\x07" + tags["INT"], {**done, "delivered": [], "stack": [(3, [b"a", 7])]}, stack=[(3, [b"a"])])
+        for val in (1.5, -0.0, float("inf")):
+            raw = struct.pack("!d", val)
+            got = step(tags["FLOAT"] + raw + b"Z")
+            ok = got.get("raised") is None and not got.get("returned") and got.get("buffer") == b"Z" and len(got.get("delivered", [])) == 1 \
+                and isinstance(got["delivered"][0], float) and struct.pack("!d", got["delivered"][0]) == raw
+            ctx.check(ok, "decode/step", f"{q} | FLOAT", f"decoding the network-order double {raw!r} gives {got!r}; the value must come back bit for bit")
+        nan = struct.pack("!d", float("nan"))
+        got = step(tags["FLOAT"] + nan)
+        ctx.check(got.get("raised") is None and len(got.get("delivered", [])) == 1 and struct.pack("!d", got["delivered"][0]) == nan and got.get("buffer") == b"", "decode/step", f"{q} | FLOAT NaN at chunk end",
+                  f"a NaN double ending the chunk gives {got!r}")
+        shortf = tags["FLOAT"] + b"\x3f\xf8\0\0"
+        want_step("FLOAT incomplete waits", shortf, {"returned": True, "raised": None, "delivered": [], "saved": shortf})
+        want_step("VOCAB in pb dialect", ref_b128(out_v[b"None"]) + tags["VOCAB"] + b"Z", {**done, "delivered": [b"None"], "buffer": b"Z"}, dialect=b"pb")
+        got = step(ref_b128(out_v[b"None"]) + tags["VOCAB"] + b"Z", dialect=b"none")
+        ctx.check(got.get("raised") is not None and not got.get("delivered"), "decode/step", f"{q} | VOCAB outside pb dialect refused", f"a VOCAB item outside the pb dialect gives {got!r}")
+        got = step(b"\x01\x88Z")
+        ctx.check(got.get("raised") is not None and not got.get("delivered"), "decode/step", f"{q} | unknown type byte refused", f"an unknown type byte gives {got!r} (it must not be skipped silently)")
+        # prefix limit, both paths, with a small limit so that the boundary is cheap to state
+        for lim_ in (3, L):
+            ones = b"\x01" * lim_
+            want_step("prefix of limit digits, type byte not yet seen: waits", ones, {"returned": True, "raised": None, "saved": ones}, limit=lim_,
+                      why="the encoder legitimately produces prefixes of exactly prefixLimit digits; a chunk boundary before the type byte must not be fatal")
+            want_step("prefix longer than limit, type byte not yet seen: refused", ones + b"\x01", {"raised": "BananaError"}, limit=lim_,
+                      why="an endless prefix must be refused without waiting for a type byte")
+            want_step("prefix of limit digits with type byte: accepted", ones + tags["LONGINT"], {**done, "buffer": b""}, limit=lim_)
+            want_step("prefix longer than limit with type byte: refused", ones + b"\x01" + tags["LONGINT"], {"raised": "BananaError", "delivered": []}, limit=lim_,
+                      why="the prefix limit must also hold when prefix and type byte arrive together")
+        # leftover handling around the loop
+        e = {**env0, "self.buffer": b"ab", chunk_p: b"cd", "self.listStack": [], "self.gotItem": lambda i: None}
+        eval_block(pre, e, funcs=funcs)
+        ctx.check(e.get("buffer") == b"abcd", "decode/leftover-prepended", q + " | saved bytes + new chunk", f"the working buffer is {e.get('buffer')!r} for saved b'ab' and chunk b'cd'")
+        e = {**env0, "self.buffer": b"ab", "buffer": b""}
+        eval_block(post, e, funcs=funcs)
+        ctx.check(e.get("self.buffer") == b"", "decode/leftover-prepended", q + " | saved bytes cleared when all consumed", "fully consumed data stays in self.buffer and is decoded again with the next chunk")
 
 
 _NEGD = "            elif typebyte == NEG:\n                buffer = rest\n                num = -b1282int(num)\n"
